@@ -8,6 +8,7 @@ import math
 from fractions import Fraction
 
 _TABLE = {}
+REAL_SIMPLIFY = True
 
 
 class T:
@@ -107,8 +108,26 @@ def fbin(op, a, b):
                 return max(a, b)
         except OverflowError:
             return float("inf")
-    # identities valid in both R and F mode for the purposes here are NOT applied (x*1, x+0
-    # are exact in IEEE too, but -0.0 subtleties: x + 0.0 maps -0.0 to +0.0). Only the safe ones:
+    if REAL_SIMPLIFY:
+        # valid over the reals (and over finite doubles up to the sign of zero); switched off for
+        # bit-precise (F-mode) obligations
+        if op == "fmul" and ((ca and a == 0.0) or (cb and b == 0.0)):
+            return 0.0
+        if op == "fadd":
+            if ca and a == 0.0:
+                return b
+            if cb and b == 0.0:
+                return a
+        if op == "fsub" and cb and b == 0.0:
+            return a
+        if op == "fdiv" and ca and a == 0.0:
+            return 0.0
+        if op == "fmul":
+            if cb and b == -1.0:
+                return fun("fneg", a)
+            if ca and a == -1.0:
+                return fun("fneg", b)
+    # identities valid in both modes:
     if op == "fmul":
         if cb and b == 1.0:
             return a
@@ -128,6 +147,8 @@ def fun(op, a):
             return abs(a)
         if op == "fsqrt":
             return math.sqrt(a) if a >= 0 else float("nan")
+    if op == "fneg" and is_t(a) and a.op == "fneg":
+        return a.args[0]
     return mk(op, (a,), "F")
 
 
